@@ -314,6 +314,18 @@ func c02run(w *report.W) {
 			c02record(w, "templated-names", fmt.Sprintf("templated attribute names #%d", i), text, c02opts{keyKind: "EdDSA", interpolate: true, yamlLeg: true}, 30)
 		}
 	}
+	// (1e) signed non-string scalars whose text depends on the number serialiser: negative zero (a float in memory, the integer 0
+	// after a round trip), tiny and huge magnitudes, integral floats
+	for i, text := range []string{
+		"steps:\n  - command: c\n    plugins: [{./p: {nz: -0.0, tiny: 1.0e-7, big: 1.0e+21, one: 1.0, neg: -1.5e-9}}]\n    matrix: {setup: [a], z: -0.0, w: [1.0e-7, -0.0]}\n",
+		"steps:\n  - command: c\n    matrix: {setup: {v: [a]}, adjustments: [{with: {v: b}, soft_fail: [{exit_status: -0.0}]}]}\n",
+	} {
+		for _, kind := range []string{"EdDSA", "ES512"} {
+			if w.Take(fmt.Sprintf("number-spellings|%d|%s", i, kind)) {
+				c02record(w, "number-spellings", fmt.Sprintf("signed floats #%d", i), text, c02opts{keyKind: kind, yamlLeg: true}, 30)
+			}
+		}
+	}
 	// (2) all key kinds, with and without interpolation, on the <=1-deviation slice (no focus)
 	ex2 := &explore.Explorer{Bound: 1}
 	ex2.Run = func(x *explore.X) bool {
